@@ -58,7 +58,8 @@ def has_fault(res):
     if t.startswith("VERIF-FAULT-SITE:") or "\nVERIF-FAULT-SITE:" in t:
         return True
     e = res.err.decode("latin-1")
-    return "Storage allocation error" in e or "Assertion failed" in e or "assertion failed" in e
+    # (a program's own failed `assert` prints "Assertion failed" too: only the C library's form "Assertion `...' failed" is the tool's)
+    return "Storage allocation error" in e or re.search(r"Assertion `.*' failed", e) is not None
 
 
 _TOOL_LINE = re.compile(r'^(#\d+ \((Warning|Error|Fatal Error|Remark|Note)\)|\[L\d+ C\d+\]|"[^"]*", line \d+:|\.*\^+[.^]*$|#\d+ (0x)?[0-9a-f]+ in <|\.\.\.$|Unhandled Exception)')
@@ -75,6 +76,32 @@ def strip_tool_text(text):
 
 
 _A2L = {}
+_A2F = {}
+FRONT_FILES = {"include.c", "scan.c", "token.c", "syscmd.c", "linear.c", "parseby.c", "axl_y.c", "axl.y", "axl.z", "abnorm.c", "macex.c", "srcline.c",
+               "srcpos.c", "comsg.c"}
+UTILITY_FILES = {"util.c", "stdc.c", "store.c", "strops.c", "buffer.c", "fname.c", "file.c", "opsys.c", "os_unix.c", "list.c", "table.c", "symbol.c",
+                 "bigint.c", "sexpr.c", "ostream.c", "format.c", "msg.c", "path.c", "btree.c", "bitv.c", "priq.c", "cport.c", "debug.c", "fluid.c"}
+DRIVER_FILES = {"axlcomp.c", "main.c", "cmdline.c"}
+
+
+def fault_phase(tc, text):
+    """Phase of the first frame of the fault (below the handler, abort and bug()) that is not in a general utility module:
+    'syntactic' = lexical / syntactic front end (include, scan, token, linear, parse, abnorm, macex, srcpos, comsg), 'driver' = top level,
+    'semantic' = scope binding, type inference and every later phase; '' if unknown."""
+    site = fault_site(tc, text, depth=8)
+    if not site:
+        return ""
+    fns = site.split("@")[-1].split("<")
+    for fn in fns:
+        f = _A2F.get((tc.aldor, fn), "")
+        if not f or f in UTILITY_FILES:
+            continue
+        if f in FRONT_FILES:
+            return "syntactic"
+        if f in DRIVER_FILES:
+            return "driver"
+        return "semantic"
+    return "semantic" if site.startswith("bug:") else ""
 
 
 def fault_site(tc, text, depth=3):
@@ -99,7 +126,10 @@ def fault_site(tc, text, depth=3):
         key = (tc.aldor, o)
         if key not in _A2L:
             r = subprocess.run(["addr2line", "-f", "-e", tc.aldor, o], capture_output=True, text=True)
-            _A2L[key] = r.stdout.split("\n")[0].strip() or "?"
+            ls = r.stdout.split("\n")
+            _A2L[key] = ls[0].strip() or "?"
+            if len(ls) > 1:
+                _A2F[(tc.aldor, _A2L[key])] = os.path.basename(ls[1].split(":")[0])
         n = _A2L[key]
         if n in ("bug", "bugBadCase", "exitFailure", "comsgFatal", "stoDefaultError"):
             continue
